@@ -591,6 +591,32 @@ def run_rawxml(ctx):
     r.sample({'raw_cells': [w for w, _ in RAW_CELLS]})
 
 
+def run_entry_coordinates(ctx):
+    """entry cells whose coordinates are no whole numbers from 0 (floats, negatives, logicals, None, tuples) and positions far outside the
+    sheet: the translation is refused with a library exception or yields a class that loads - never a foreign exception, never a member name
+    no class can define"""
+    from excel2pycl import Cell, Parser
+    r = ctx.r
+    cells = {'A1': 1, 'B1': 2, 'C1': '=A1+B1', 'A2': 'x'}
+    path = wbspec.write(wbspec.spec(wbspec.sheet('S', cells)), os.path.join(ctx.workdir, 'entrycoords.xlsx'))
+    odd = [(0, 2.0, 0), (0, 2, 0.0), (0, 99, 0.5), (0, None, 0), (0, 5.5, 7), (0, 2, -1), (0, -1, 0), (0, True, 0), (0, 2, True), (0, (2,), 0), (0, '2', 0), (0, 2, '0'),
+           (0, 'C', 1), (0, 2, '1'), (0, 10 ** 6, 0), (0, 2, 10 ** 7), (True, 2, 0), (0.0, 2, 0), (None, 2, 0), (-1, 2, 0), (0, 'c', '1'), (0, 'C', '01'), ('S', 2.0, '1')]
+    for (t, c, row) in odd:
+        tr = pipeline.guarded(lambda: Parser().set_excel_file_path(path).set_entrypoint_cell(Cell(t, c, row)).get_translation(), 'translate')
+        r.ev()
+        r.count('entry_coordinate_probes')
+        r.nt(('entry-coord', repr((t, c, row))))
+        case = {'text': f'entry Cell({t!r}, {c!r}, {row!r}) on a sheet with =A1+B1 in C1', 'how': 'entry-coordinates'}
+        if not tr.ok:
+            if tr.kind != pipeline.LIB_EXC:
+                report(r, ID, None, case, tr.brief(), 'a class or an exception of the library', monitor='translate-foreign-exception')
+            continue
+        ld = pipeline.load_text(tr.value)
+        if not ld.ok:
+            report(r, ID, None, case, ld.brief(), 'the returned text compiles and loads', monitor='load')
+    r.sample({'entry_coordinates': [repr(o) for o in odd[:8]]})
+
+
 def plan(tier, seed):
     q = tier == 'quick'
     sh = [{'kind': 'degenerate'}] + [{'kind': 'nest', 'max': 24 if q else 64, 'part': p, 'parts': 8} for p in range(8)]
@@ -691,6 +717,7 @@ def run_shard(shard, ctx):
         run_scaling(ctx)
     elif k == 'rawxml':
         run_rawxml(ctx)
+        run_entry_coordinates(ctx)
     elif k == 'whole':
         rewrite_same_second(ctx)
         for i in range(shard['n']):
